@@ -149,6 +149,14 @@ K("bq_cosine_geometry_dim5", ["C12"], BQF,
   "quantised Cosine = h/64 (padded length), zero for equal patterns, symmetric, strictly increasing in h",
   "dim 5, three arbitrary f32 vectors", site="binary_quantized_cosine::built_distance")
 
+K("bq_cosine_geometry_word", ["C12"], BQF,
+  "quantised Cosine over a whole word = h/64 exactly for every h in 0..=64 (h = 32, i.e. cos = 0, included), symmetric",
+  "two arbitrary stored 64-bit sign patterns (dimension 64)", site="binary_quantized_cosine::built_distance")
+for _d in (3, 65):
+    K("bq_from_vec_dim%d" % _d, ["C12", "C18"], BQF,
+      "from_vec (the conversion path of a metric change) stores the same words as from_slice: sign pattern at the declared dimension, zero padding (dim %d)" % _d,
+      "dim %d, all f32 bit patterns" % _d, site="BinaryQuantized::from_vec")
+
 # ---------------------------------------------------------------- changing the metric (C18)
 DCF = ["writer.verif_distance_change.rs"]
 _DB = "constant-shape database: index 7 = {metadata, one tree node, items 1 and u32::MAX}, neighbours (6,Item,1) and (8,Tree,0); dim 3; all value bytes symbolic"
